@@ -434,3 +434,75 @@ def run_dirty(run, P):
     solve(f, Env({}), on_event, on_exit, keys, R, key_fn=lambda e: (e.ts.get('pd'), e.ts.get('od'), e.ts.get('sent')))
     run.instance('R-OBS-DIRTY', '%s: partially-dirty skips' % NOTIFY, n=1 if seen['pd'] else 0)
     run.require(seen['pd'] > 0, 'R-OBS-DIRTY: r->partiallydirty = 1 not found in %s()' % NOTIFY)
+
+
+def run_delete_key(run, P):
+    """R-OBS-RST (whose observer): coap_delete_observer(resource, session, token) removes the subscription of `session` with that token.
+    Where the token is read out of a subscription X that a loop is looking at (`&X->pdu->actual_token`), the session argument has to be X's
+    own: it is `X->session` itself, the path knows `X->session == session`, or X is what a look-up that was given that session returned.  Message ids are per-session counters, so "the subscription
+    whose last notification had this message id" is some other client's as soon as the session is not compared: the delete then finds
+    nothing (other client's token under this session), the search stops, and the client that sent the Reset keeps being notified."""
+    from core.psts import Env, solve, relevance, apply_generic
+    run.rule('R-OBS-RST')
+    n = 0
+    for f in sorted(P.lib_funcs(), key=lambda f: f['name']):
+        sites = []
+        for b, ev in P.events(f):
+            t = ev['e']
+            if t.get('k') == 'call' and t.get('fn') == 'coap_delete_observer' and len(t.get('a') or []) >= 3:
+                xs = [strip(y['b']) for y in walk(t['a'][2]) if isinstance(y, dict) and y.get('k') == 'mem' and y.get('f') == 'pdu' and isinstance(strip(y.get('b')), dict)
+                      and strip(y['b']).get('k') == 'var' and strip(y['b']).get('prec') == 'coap_subscription_t']
+                if xs and ap(xs[0]) and ap(t['a'][1]):
+                    sites.append((ev, ap(xs[0]), t['a'][1]))
+        if not sites:
+            continue
+        name = f['name']
+
+        xvars = set(s[1] for s in sites)
+
+        def finder(ev):
+            """X = look-up(.., S, ..): the finder was told whose subscription to look for"""
+            t = ev['e']
+            if t.get('k') == 'asg' and t.get('op') == '=' and ap(t['l']) in xvars:
+                r = strip(t['r'])
+                if isinstance(r, dict) and r.get('k') == 'call':
+                    return ap(t['l']), [ap(a) for a in r.get('a') or [] if ap(a)]
+                return ap(t['l']), []
+            return None
+
+        def is_rule_event(ev):
+            return any(ev is s[0] for s in sites) or finder(ev) is not None
+        keys, R = relevance(f, is_rule_event)
+        keys = set(keys)
+        for b in f['blocks']:
+            c = (b.get('term') or {}).get('cond')
+            if c is not None and any(isinstance(y, dict) and y.get('k') == 'mem' and y.get('f') == 'session' and ap(y.get('b')) in xvars for y in walk(c)):
+                keys.add(b['id'])
+
+        def on_event(ev, env, ctx):
+            fd = finder(ev)
+            if fd is not None:
+                e = apply_generic(ev, env, R).copy()
+                e.ts['via:' + fd[0]] = tuple(fd[1])
+                return [e]
+            for sev, x, sarg in sites:
+                if ev is sev:
+                    want = x + '->session'
+                    sa = ap(sarg)
+                    ok = sa == want or sa in env.ts.get('via:' + x, ())
+                    if not ok:
+                        for ak, av in env.atoms.items():
+                            if want in ak and sa in ak and (('==' in ak and av is True) or ('!=' in ak and av is False)):
+                                ok = True
+                    run.oblige('R-OBS-RST', ok, '%s:delete-own-observer' % name)
+                    if not ok:
+                        run.violation('R-OBS-RST', name, ev['loc'], 'observer-token-with-foreign-session',
+                                      'coap_delete_observer() is given the token of the subscription the loop is looking at and the session %s, on a path that does not know '
+                                      'that subscription belongs to that session: with equal message ids on two sessions another client\'s subscription is selected, nothing is '
+                                      'deleted, and the client that sent the Reset keeps being notified' % short(sarg)[:30], ctx.path())
+            return None
+        for s in sites:
+            n += 1
+            run.instance('R-OBS-RST', '%s: deletes the observer a loop is looking at' % name)
+        solve(f, Env(), on_event, None, keys, R, key_fn=lambda e: (tuple(sorted((k, v) for k, v in e.atoms.items() if any(x in k for x in xvars))), tuple(sorted((k, v) for k, v in e.ts.items() if k.startswith('via:')))), max_envs=128)
+    run.require(n >= (2 if run.cfg == 'base' else 0) or run.fixture_mode, 'R-OBS-RST(whose observer): fewer than 2 deletions of a looked-at observer found')
